@@ -2,6 +2,7 @@ package props
 
 import (
 	"go/token"
+	"go/types"
 	"strings"
 
 	"golang.org/x/tools/go/ssa"
@@ -62,7 +63,7 @@ func checkC04(p *load.Program, r *kit.Report) {
 	r.Rule("GUARD-DOM", "ProcessCoinbaseTx, ConfirmTx and AppendBlockTxIDs are dominated by (a) received count == announced txCount, (b) FinalizeMerkleProofs() root Equal header.MerkleRoot (directly or through a wrapper all of whose successes are behind it), (c) len(proofs) == len(relevant txids); HandleBlock delegates only behind requestedHash.Equal(hash of the delivered header); the node starts the handler only behind blockRequest.Equal(blockHash)", 11)
 	r.Rule("MUST-PASS", "per received tx: AddHash(txid) exactly once and the counter +1 exactly once on every path to the next iteration, txid = *tx.TxHash(); relevant txids and AddMerkleProof only behind isRelevant, before AddHash; every relevant tx gets its proof requested; every iteration of the confirmation loop calls ConfirmTx; the node closes txChannel exactly once on every exit after creating it", 3)
 	r.Rule("PAIRING", "ConfirmTx(txid, height, proof) gets blockTxIDs[i] and the tree's own merkleProofs[i] (same index), after BlockHeader/BlockHash of that proof were set from the verified header", 2)
-	r.Rule("OWNERSHIP", "the *wire.BlockHeader the node passes to the block handler (and that the downloader stores in every confirmed proof) is allocated in handleBlock for that message, never shared storage", 1)
+	r.Rule("OWNERSHIP", "the *wire.BlockHeader the node passes to the block handler (and that the downloader stores in every confirmed proof) is allocated in handleBlock for that message, never shared storage; every tx put on the tx channel is allocated in its own loop iteration (the coinbase and the relevant txs outlive the iteration)", 2)
 	r.Rule("ORDER", "coinbase → confirmations → AppendBlockTxIDs, each behind the previous success", 2)
 
 	f := fn(p, r, "GUARD-DOM", R, "BlockDownloader.handleBlock")
@@ -515,6 +516,45 @@ func checkC04(p *load.Program, r *kit.Report) {
 				pos = posOf(p, at)
 			}
 			r.Check(badO == "", "OWNERSHIP", "node.handleBlock/fresh-header", pos, "the header given to the handler is allocated per message", badO)
+		}
+		// every tx handed to the handler through the channel is an object of its own: the downloader
+		// keeps the first one (the coinbase) until the merkle root is verified and the processor may
+		// keep the relevant ones; a recycled slot would be overwritten by a later tx of the block
+		if mk != nil {
+			badT := "no tx is sent on the tx channel"
+			var at ssa.Instruction
+			kit.AllInstrs(nb, func(in ssa.Instruction) {
+				var ch, val ssa.Value
+				switch x := in.(type) {
+				case *ssa.Send:
+					ch, val = x.Chan, x.X
+				case *ssa.Select:
+					for _, st := range x.States {
+						if st.Dir == types.SendOnly && kit.Strip(st.Chan) == ssa.Value(mk) {
+							ch, val = st.Chan, st.Send
+						}
+					}
+				}
+				if ch == nil || kit.Strip(ch) != ssa.Value(mk) {
+					return
+				}
+				at = in
+				v := kit.Strip(val)
+				al, ok := v.(*ssa.Alloc)
+				switch {
+				case !ok:
+					badT = "the tx sent to the block handler is " + describe(v) + ", not an object allocated for this tx: the handler keeps the coinbase (and the processor what it marked relevant) while later txs of the block overwrite it"
+				case len(cycleOf(al.Block())) == 0:
+					badT = "the tx sent to the block handler is allocated once, outside the per-tx loop, and reused for every tx"
+				default:
+					badT = ""
+				}
+			})
+			posT := posOf(p, nb.Blocks[0].Instrs[0])
+			if at != nil {
+				posT = posOf(p, at)
+			}
+			r.Check(badT == "", "OWNERSHIP", "node.handleBlock/fresh-tx", posT, "each tx sent on the tx channel is allocated in that iteration", badT)
 		}
 		if mk != nil {
 			var closes []ssa.Instruction
